@@ -1,17 +1,17 @@
-\* reachability (vacuity guard, thorough tier): a failed write of the head does stop the client - must violate NeverStopped
+\* reachability (vacuity guard): a read of the accessor overlapping a SetL1Head exists - must violate NoOverlap
 CONSTANTS
   MaxBlocks = 3
-  MaxEvents = 3
+  MaxEvents = 2
   MaxPerBlock = 2
-  MaxReorgs = 1
+  MaxReorgs = 0
   MaxRestarts = 1
-  MaxFail = 1
-  ChunkSizes = {1, 2, 10}
-  MaxWriteFail = 1
+  MaxFail = 0
+  ChunkSizes = {2, 10}
+  MaxWriteFail = 0
   CatchUpWriteErrorFatal = TRUE
   SwallowWriteError = FALSE
   AnnounceBeforeWrite = FALSE
-  MaxReads = 0
+  MaxReads = 3
   CachedAccessor = FALSE
   ErrKinds = {"transport", "timeout", "notfound", "cancel"}
   NotFoundMeansLatest = FALSE
@@ -19,5 +19,5 @@ CONSTANTS
 INIT Init
 NEXT Next
 VIEW view
-INVARIANTS NeverStopped
+INVARIANTS NoOverlap
 CHECK_DEADLOCK FALSE
